@@ -33,6 +33,7 @@ def check_vector(v, nformats=2, variant="canon"):
         return {"n": 0, "nt": [], "bad": []}
     fmts, h = _formats_for(prog, v.get("nformats", nformats))
     bad, n, nt = [], 0, []
+    env_skipped = []
     for fmt in dict.fromkeys(fmts):
         pairs = tk.SOURCES[fmt]["pairs"]
         pair = pairs[h % len(pairs)]
@@ -63,6 +64,10 @@ def check_vector(v, nformats=2, variant="canon"):
             nt.append("%s|%s|%s" % (fmt, pair, json.dumps(prog, sort_keys=True)))
         if lo[0] == "err" and eo[0] == "err":
             continue                                     # "or fails in both"
+        if prog[-1]["op"] == "row" and any(o[0] == "err" and ENV_BROKEN in o[1] for o in (lo, eo)):
+            # single-row access on view-shaped ragged columns is broken by the installed numpy/npstructures pair (DESIGN 5)
+            env_skipped.append(1)
+            continue
         if lo[0] != eo[0]:
             bad.append({"what": "operation %s in one mode only" % ("fails" if True else ""),
                         "tags": dict(tags, kind="fails-in-%s-only" % ("lazy" if lo[0] == "err" else "eager")),
@@ -76,7 +81,10 @@ def check_vector(v, nformats=2, variant="canon"):
         if exp is not None and lo[1] != exp:
             bad.append({"what": "both modes agree but differ from the table ADT of the specification (%s)" % obs["kind"],
                         "tags": dict(tags, kind="both!=spec"), "vector": v, "case": case, "expected": _short(("ok", exp)), "observed": _short(lo)})
-    return {"n": n, "nt": nt, "bad": bad}
+    return {"n": n, "nt": nt, "bad": bad, "env_skipped": len(env_skipped)}
+
+
+ENV_BROKEN = "only 0-dimensional arrays can be converted to Python scalars"
 
 
 def _short(o):
@@ -87,7 +95,7 @@ def _short(o):
 def run(ctx):
     quick = ctx.tier == "quick"
     invs = ["Equivalent", "Aligned", "PassThrough", "ContigSound", "Emit"]
-    consts = {"NRec": tk.NREC, "Fields": ["f1", "f2"], "MaxPool": 3, "AsBuilt": False, "Sels": SELS, "Ops": ["len", "tolist", "write", "get", "replace", "index", "concat"]}
+    consts = {"NRec": tk.NREC, "Fields": ["f1", "f2"], "MaxPool": 3, "AsBuilt": False, "Sels": SELS, "Ops": ["len", "tolist", "write", "get", "replace", "index", "concat", "row"]}
     vectors = []
     for chunked in (False, True):
         depth = (4 if not chunked else 3) if quick else (5 if not chunked else 4)
@@ -95,7 +103,7 @@ def run(ctx):
         res = ctx.tlc("MC_C05", tag="MC_C05_%s" % ("chunked" if chunked else "whole"), spec="Spec",
                       constants=dict(consts, MaxDepth=depth, Chunked=chunked, Sels=sels), invariants=invs, properties=["Frame"],
                       coverage=True)
-        ctx.require_actions(res, "MC_C05", ["Len_", "Get_", "Index_", "Replace_", "Concat_", "ToRows_", "Write_"])
+        ctx.require_actions(res, "MC_C05", ["Len_", "Get_", "Index_", "Replace_", "Concat_", "ToRows_", "Write_", "Row_"])
         vectors += res.vectors
     r = core.run_tlc("MC_C05", ctx.work, tag="MC_C05_asbuilt", spec="Spec", expect_ok=False,
                      constants=dict(consts, MaxDepth=4, Chunked=False, AsBuilt=True), invariants=["Equivalent"])
@@ -107,13 +115,18 @@ def run(ctx):
             v["nformats"] = 3
     ctx.sample(vectors[5])
     ctx.sample(vectors[len(vectors) // 2])
-    ctx.absorb(core.pmap(check_vector, vectors, chunk=25))
+    results = core.pmap(check_vector, vectors, chunk=25)
+    ctx.absorb(results)
+    nrow = sum(1 for v in vectors if v["prog"][-1]["op"] == "row")
+    ctx.notes.append("single-row observations t[j]: %d programs; %d (program, format) cases skipped because the installed numpy/npstructures pair cannot index one row "
+                     "of a view-shaped ragged column (raises TypeError 'only 0-dimensional arrays ...' in at least one mode)" % (nrow, sum(r.get("env_skipped", 0) for r in results if r)))
     ctx.exhaustive = True
     return ctx.finish(RULE, assumptions=[
         "source files are canonically spelled (so that pass-through and re-serialised bytes coincide; non-canonical text is C04's subject)",
         "replaced columns are NumPy / encoded arrays of the column's type",
         "a step that fails in both modes is accepted ('or fails in both'); a failed earlier step ends the program",
         "BAM is handled by C16; GTF is never read lazily",
+        "t[j] (one row, Python and NumPy integers) is compared only where the installed numpy/npstructures pair can do it (environment exclusion, DESIGN 5)",
     ])
 
 
